@@ -105,8 +105,19 @@ def diff_calls(ctx, fn: FuncInfo) -> list[tuple[ast.Call, ast.expr, ast.expr]]:
     for n in walk_no_nested(fn.node):
         if isinstance(n, ast.Call):
             q = r.callee_qname(n)
-            if q in DIFF_FUNCS and len(n.args) >= 2:
-                out.append((n, n.args[0], n.args[1]))
+            if q in DIFF_FUNCS:
+                # (before, after) are the first two parameters of the repo's diff helpers, however they are passed
+                f = ctx.prog.functions.get(q)
+                if f is not None:
+                    from .model import bind_args
+
+                    b = bind_args(n, f, False)
+                    ps = f.positional_params()
+                    if len(ps) >= 2 and ps[0] in b and ps[1] in b:
+                        out.append((n, b[ps[0]], b[ps[1]]))
+                        continue
+                if len(n.args) >= 2:
+                    out.append((n, n.args[0], n.args[1]))
     return out
 
 
